@@ -375,11 +375,16 @@ def run(tier):
                 for T, (dt, why) in zip(Ts, ex.map(lambda T: retransmit_interval(srv.addr, "f700.bin", T), Ts)):
                     evaluations += 1
                     eff = T or 5
-                    if dt is not None and dt > eff + 1.5:
+                    slack = max(1.5, 0.1 * eff)
+                    if dt is not None and dt > eff + slack:
                         # far later than acknowledged: a verdict only if it repeats on two serial re-runs
                         again = [retransmit_interval(srv.addr, "f700.bin", T)[0] for _ in range(2)]
-                        if all(a is not None and a > eff + 1.5 for a in again):
+                        if all(a is not None and a > eff + slack for a in again):
                             v.violation("C09/retransmit-too-late", f"{cfg}: acknowledged timeout {eff}s but DATA 1 was retransmitted only after {dt:.2f}s / {again[0]:.2f}s / {again[1]:.2f}s (3 of 3 runs)", {"engine": "net", "config": cfg, "T": eff, "measured": [dt] + again})
+                        elif all(a is not None and a >= eff - 0.05 for a in again):
+                            # one late measurement that does not repeat is scheduling noise; two good measurements stand
+                            distinct.add((cfg, "retransmit", eff))
+                            classes[f"retransmit-T{eff}-late-once"] = round(dt, 3)
                         else:
                             v.note_inconclusive(f"{cfg}: retransmission for T={eff} arrived after {dt:.2f}s once (re-runs {again})")
                     elif dt is None:
